@@ -552,7 +552,46 @@ FIXED_ENTITIES = [
 ]
 
 
+# the inputs of the counterexample theorems of Props/C02.lean (Model/Storage.lean namespace Ex) with the proved outputs and the
+# classification of the exclusion; replayed on the real code on every run
+def _T(*pairs):
+    return [(pairs[i], pairs[i + 1]) for i in range(0, len(pairs), 2)]
+
+
+LEAN_EXAMPLES = [
+    ("dup_xdata_appid", _T(0, "FOO", 5, "A", 330, "B", 100, "AcDbFoo", 1001, "APP", 1000, "first", 1001, "OTHER", 1000, "o", 1001, "APP", 1000, "second"), [],
+     _T(0, "FOO", 5, "A", 330, "B", 100, "AcDbFoo", 1001, "APP", 1000, "second", 1001, "OTHER", 1000, "o"),
+     "outside the quantifier: one XDATA set per appid and entity"),
+    ("foreign_base_tag", _T(0, "FOO", 5, "A", 1, "foreign", 330, "B", 100, "AcDbFoo"), [], _T(0, "FOO", 5, "A", 330, "B", 100, "AcDbFoo"),
+     "outside the quantifier: DXF defines no other tags in front of the first subclass marker of an R2000+ object"),
+    ("alt_close", _T(0, "FOO", 5, "A", 102, "{APP", 1, "x", 102, "APP}", 330, "B"), [], _T(0, "FOO", 5, "A", 102, "{APP", 1, "x", 102, "APP}", 102, "}", 330, "B"),
+     "outside the quantifier (non-standard closing tag accepted by the loader); nothing lost, one tag added, fixed point"),
+    ("xdict_unresolved", _T(0, "FOO", 5, "A", 102, "{ACAD_XDICTIONARY", 360, "30", 102, "}", 330, "B"), [], _T(0, "FOO", 5, "A", 330, "B"),
+     "outside the quantifier: dangling pointer in the input"),
+    ("xdict_resolved", _T(0, "FOO", 5, "A", 102, "{ACAD_XDICTIONARY", 360, "30", 102, "}", 330, "B"), ["30"],
+     _T(0, "FOO", 5, "A", 102, "{ACAD_XDICTIONARY", 360, "30", 102, "}", 330, "B"), "inside: kept"),
+    ("empty_reactors", _T(0, "FOO", 5, "A", 102, "{ACAD_REACTORS", 102, "}", 330, "B"), [], _T(0, "FOO", 5, "A", 330, "B"),
+     "outside the quantifier: an empty reactors group carries no data"),
+    ("dup_appdata_key", _T(0, "FOO", 5, "A", 102, "{APP", 1, "first", 102, "}", 102, "{APP", 1, "second", 102, "}", 330, "B"), [],
+     _T(0, "FOO", 5, "A", 102, "{APP", 1, "second", 102, "}", 330, "B"), "outside the quantifier: one group per application name"),
+    ("two_handles", _T(0, "FOO", 5, "A", 5, "B", 330, "C", 330, "D"), [], _T(0, "FOO", 5, "B", 330, "C"), "outside the quantifier: malformed"),
+    ("no_handle", _T(0, "FOO", 100, "AcDbFoo"), [], _T(0, "FOO", 5, "None", 330, "0", 100, "AcDbFoo"),
+     "outside the quantifier (R2000+ objects have a handle); inside a document the entity database assigns a handle"),
+]
+
+
+def replay_lean_examples(ctx):
+    for name, tags, alive, want, cls in LEAN_EXAMPLES:
+        out, r = impl_roundtrip(tags, alive)
+        ctx.count("E1 counterexample theorems on real code", name, True, sample={"theorem": name + "_counterexample", "input": str(tags)[:200],
+                                                                                 "impl": str(out)[:200], "classified": cls})
+        if out != want:
+            ctx.disagree("E1 counterexample theorems on real code", f"{name}: {tags}", str(out), str(want))
+    ctx.cov["disagreements_checked"] += len(LEAN_EXAMPLES)
+
+
 def correspond_entities(ctx):
+    replay_lean_examples(ctx)
     cases, spec_lines, spec_meta = [], [], []
     for kind, tags, alive, cls in entity_cases(ctx):
         ctx.hist("X1 tag storage", kind)
@@ -1475,6 +1514,15 @@ def correspond_structure(ctx):
         recs = gen_records(rng, malformed=i % 2 == 1)
         ctx.hist("X2 file structure", "malformed" if i % 2 else "well-formed")
         cases.append((f"struct|{enc_recs(recs)}", impl_struct(recs), len(recs) > 2))
+    # the record lists of thumbnail_dropped_counterexample / dup_section_name_counterexample
+    ex1 = [[(0, "SECTION"), (2, "THUMBNAILIMAGE")], [(0, "x"), (90, "3")], [(0, "ENDSEC")], [(0, "SECTION"), (2, "FOO")], [(0, "BAR"), (1, "payload")],
+           [(0, "ENDSEC")], [(0, "SECTION"), (2, "OBJECTS")], [(0, "DICTIONARY"), (5, "C")], [(0, "ENDSEC")], [(0, "SECTION"), (2, "ZED")], [(0, "ENDSEC")], [(0, "EOF")]]
+    ex2 = [[(0, "SECTION"), (2, "FOO")], [(0, "BAR"), (1, "first")], [(0, "ENDSEC")], [(0, "SECTION"), (2, "FOO")], [(0, "BAR"), (1, "second")], [(0, "ENDSEC")], [(0, "EOF")]]
+    for ex, want in ((ex1, "ok 70 79 79=2;79 66 74 69 67 84 83=2;90 69 68=1"), (ex2, "ok 70 79 79=2")):
+        got = impl_struct(ex)
+        if got != want:
+            ctx.disagree("E1 counterexample theorems on real code", str(ex), got, want)
+        cases.append((f"struct|{enc_recs(ex)}", got, True))
     ctx.correspond("X2 file structure", "C02", cases)
     # stored sections through the whole real load -> save
     dxfparse = _import_dxfparse()
